@@ -1,5 +1,5 @@
 """property id -> (spec, harness group)"""
-from . import props_alg, props_alias, props_lin, props_est
+from . import props_alg, props_alias, props_lin, props_est, props_eig
 
 SPECS = {}
 for pid, spec in props_alg.SPECS.items():
@@ -10,4 +10,6 @@ for pid, spec in props_lin.SPECS.items():
     SPECS[pid] = (spec, props_lin.GROUP)
 for pid, spec in props_est.SPECS.items():
     SPECS[pid] = (spec, props_est.GROUP)
+for pid, spec in props_eig.SPECS.items():
+    SPECS[pid] = (spec, props_eig.GROUP)
 NOT_CLAIMED = {}
